@@ -17,7 +17,8 @@
   set (`ec 08`) a note byte `82+k` calls routine k instead of sounding.
   The two remembered lengths are per-track registers that simply persist (through loops and
   into subroutines); what they hold after a subroutine returns or after the loop-back jump is
-  left unspecified (`none`: relying on them there is an error `noLength`).
+  left unspecified (`none`: relying on them there is an error `noLength`); a drum routine runs
+  with its own registers and the caller's are restored when it returns.
 
   Output: a tick string — what sounds at each tick, with zero-time commands in between.
 -/
@@ -46,7 +47,9 @@ structure St where
   lastNote : Option Nat := none
   lastRest : Option Nat := none
   loops : List LoopF := []
-  calls : List (Nat × Option Nat) := []   -- return pc, pending drum length
+  /-- return pc; for a drum-routine call the pending note length and the caller's two length
+  registers (a drum routine runs with its own registers: the caller's are restored on return) -/
+  calls : List (Nat × Option (Nat × Option Nat × Option Nat)) := []
   drum : Bool := false
   jumps : Nat := 0
   out : List Tk := []                      -- reversed
@@ -96,17 +99,19 @@ def step (seq : List Nat) (base maxJumps : Nat) (s : St) : Except Stop St :=
         if s.drum ∧ b ≥ mds_NOTE then
           match slotTarget seq base (b - mds_NOTE) with
           | none => .error .badRead
-          | some t => .ok { s with pc := t, lastNote := ln, calls := (pc', some len) :: s.calls }
+          | some t => .ok { s with pc := t, lastNote := none, lastRest := none,
+                                   calls := (pc', some (len, ln, s.lastRest)) :: s.calls }
         else .ok (emitNote { s with pc := pc', lastNote := ln } b len)
     else if b = mds_SLR then .ok { s with pc := s.pc + 1, out := Tk.cmd b 0 :: s.out }
     else if b = mds_FINISH then
       match s.calls with
       | [] => .error .finished
-      | (ret, _) :: cs => .ok { s with pc := ret, calls := cs, lastNote := none, lastRest := none }
+      | (ret, none) :: cs => .ok { s with pc := ret, calls := cs, lastNote := none, lastRest := none }
+      | (ret, some (_, ln, lr)) :: cs => .ok { s with pc := ret, calls := cs, lastNote := ln, lastRest := lr }
     else if b = mds_DMFINISH then
       match rd seq (s.pc + 1), s.calls with
-      | some n, (ret, some len) :: cs =>
-        .ok (emitNote { s with pc := ret, calls := cs, lastNote := none, lastRest := none } (mds_NOTE + n) len)
+      | some n, (ret, some (len, ln, lr)) :: cs =>
+        .ok (emitNote { s with pc := ret, calls := cs, lastNote := ln, lastRest := lr } (mds_NOTE + n) len)
       | _, _ => .error .badOp
     else if b = mds_JUMP then
       match rd16 seq (s.pc + 1) with
